@@ -255,11 +255,14 @@ fn gen_impl_delegation_trait_defs(
                 &FnInputMode::RawTrait(LiteralAttrs(&[])),
             )?;
 
+            // (like the delegation target trait it names, the selector trait is as visible as the original trait)
+            let selector_vis = &trait_copy.vis;
+
             Ok(Some(quote! {
                 #(#impl_sub_attributes)*
                 #trait_def
 
-                pub trait #delegation_ident<T> {
+                #selector_vis trait #delegation_ident<T> {
                     type Target: #impl_trait_ident<T>;
                 }
             }))
